@@ -8,3 +8,5 @@ def check(rep, tier):
     rep.run(tracer_primitive.run, rep, tier, only=("W4", "W1", "W2", "W3", "W7"))
     rep.run(diffops.run_ops, rep, tier)
     rep.run(diffops.run_nary, rep, tier)
+    from contracts import discipline as _d17
+    rep.run(_d17.run_frame, rep, tier)        # rule tables are rebuilt per registration, no registration-time state kept elsewhere
